@@ -1560,6 +1560,7 @@ def _tensordot_worker(a, b, int axes):
     cdef QTYPE_t[::1] chinfo_mod = a.chinfo._mod
     cdef intp_t cut_a = a.rank - axes
     cdef intp_t cut_b = axes
+    cdef intp_t a_rank = a.rank
     cdef intp_t b_rank = b.rank
     cdef intp_t res_rank = cut_a + b_rank - cut_b
     IF DEBUG_PRINT:
@@ -1640,7 +1641,9 @@ def _tensordot_worker(a, b, int axes):
         block_dim_a_keep[row_a] = m
         for j in range(a_slices[row_a], a_slices[row_a+1]):
             block = np.PyArray_GETCONTIGUOUS(a_data[j])
-            k = np.PyArray_SIZE(block) / m
+            k = 1  # (not `size / m`: blocks of size 0 have m == 0)
+            for ax in range(cut_a, a_rank):
+                k *= block.shape[ax]
             block_dim_a_contr[j] = k  # needed for dgemm
             a_data_ptr[j] = np.PyArray_DATA(block)
             a_data[j] = block  # important to keep the arrays of the pointers alive
